@@ -577,6 +577,8 @@ func accName(k int) string {
 		return "incrLSN"
 	case storage.VerifAccSetPageTableRoot:
 		return "setPageTableRoot"
+	case storage.VerifAccReadHeader:
+		return "readHeaderCounter"
 	}
 	return "?"
 }
@@ -670,6 +672,11 @@ func (w *World) hookHeaderWrite(fs *storage.VerifStore, b []byte) {
 		return
 	}
 	w.count("header_write")
+	if w.mon.Lock && st.auto && !w.inRecovery && !st.writer {
+		// save() reads the header fields and writes offset 0: both need the exclusive lock
+		w.raise("C13", "O-lock", "file header built and written to the data file without the exclusive lock",
+			map[string]string{"stmt": w.stmtKind, "access": "headerWrite"})
+	}
 	w.h(9, uint64(st.id))
 	w.Hash.addBytes(b)
 	if st.inFlush && st.flushBase != nil {
